@@ -54,6 +54,14 @@ where
     }
 }
 
+/// A signed value `v` is stored on `n` bytes in two's complement, so it needs
+/// `-2^(8n-1) <= v < 2^(8n-1)`. Return a non negative value which needs the same
+/// number of bytes when counted as an unsigned value.
+fn signed_size_probe(v: i64) -> i64 {
+    let magnitude = if v < 0 { !v } else { v };
+    magnitude.checked_mul(2).unwrap_or(i64::MAX)
+}
+
 #[derive(Default, Debug)]
 pub enum ValueCounter<T> {
     #[default]
@@ -242,11 +250,11 @@ impl<PN: PropertyName> Property<PN> {
             } => match entry.value(name).as_ref() {
                 Value::Signed(value) => {
                     counter.process(*value);
-                    size.process(*value);
+                    size.process(signed_size_probe(*value));
                 }
                 Value::SignedWord(value) => {
                     counter.process(value.get());
-                    size.process(value.get());
+                    size.process(signed_size_probe(value.get()));
                 }
                 _ => {
                     panic!("Value type doesn't correspond to property");
